@@ -354,10 +354,10 @@ void welch_case(const Json& c, Out& o, bool real) {
 Json geo_json(int nfft, int L, int nov, int nseg, int extra, int form, int wfam, int sym, int psd) {
     return Json::object().set("nfft", nfft).set("winlen", L).set("nov", nov).set("nseg", nseg).set("extra", extra).set("form", form).set("wfam", wfam).set("sym", sym).set("psd", psd);
 }
-Json random_geo(long work_cap, int max_log, bool allow_forms) {
-    int form = allow_forms ? pick(0, 7) : 0;
+Json random_geo(long work_cap) {
+    int form = pick(0, 7);
     form = form < 5 ? 0 : form - 4;   // 5/8 of the cases use the complete signature, the rest the three shorter overloads
-    int nfft = 8 << pick(0, max_log - 3);
+    int nfft = 8 << pick(0, 9);   // 8 .. 4096
     int L;
     switch (pick(0, 3)) {
     case 0: L = nfft; break;
@@ -404,7 +404,7 @@ void welch_gen(Ctx& ctx, bool real) {
     // (2) random geometry over the whole quantifier
     const long cap = ctx.by_tier(1L << 18, 1L << 20);
     ctx.rc("random", ctx.by_tier(50000, 400000), [&]() {
-        Json j = random_geo(cap, 12, true);
+        Json j = random_geo(cap);
         int cls = pick(0, X_NCLS + 2);
         if (cls >= X_NCLS) cls = X_GAUSS;
         return j.set("cls", cls).set("seed", (long long)seed64());
@@ -503,7 +503,7 @@ static void pk_check(const Json& c, Out& o) {
 }
 static void pk_gen(Ctx& ctx) {
     ctx.rc("random", ctx.by_tier(100000, 600000), [&]() {
-        Json j = random_geo(ctx.by_tier(1L << 16, 1L << 18), 12, true);
+        Json j = random_geo(ctx.by_tier(1L << 16, 1L << 18));
         const int nfft = j.geti("nfft"), L = j.geti("winlen");
         const bool real = flip();
         int k0;
@@ -621,10 +621,8 @@ static void label_gen(Ctx& ctx, bool real) {
     for (int lg = 3; lg <= 12; ++lg) {
         const int nfft = 1 << lg;
         const int jmax = real ? int(std::floor((0.5 * nfft - 3.0) / 0.37 + 1e-9)) : int(std::ceil(nfft / 0.37)) - 1;
-        const int step = 1;
         const int reps = (nfft <= 64 ? 16 : nfft <= 256 ? 6 : nfft <= 1024 ? 2 : 1) * ctx.by_tier(1, 4);
-        const int off = int(mix(ctx.seed, uint64_t(nfft)) % uint64_t(step));
-        for (int j = (real ? 0 : 1) + off; j <= jmax; j += step)
+        for (int j = (real ? 0 : 1); j <= jmax; ++j)
             for (int rep = 0; rep < reps; ++rep) {
                 if (!ctx.mine()) continue;
                 const uint64_t h = mix(ctx.seed, key_of(nfft, j, rep, int(real)));
@@ -681,7 +679,7 @@ bool has_energy_everywhere(const std::vector<cd>& x, const Geo& g) {
     return mx > 0 && mn >= 1e-12L * mx;
 }
 Json coh_geo(Ctx& ctx) {
-    Json j = random_geo(ctx.by_tier(1L << 16, 1L << 18), 12, true);
+    Json j = random_geo(ctx.by_tier(1L << 16, 1L << 18));
     if (j.geti("nseg") == 1 && pick(0, 3)) {   // one segment gives coherence 1 identically: keep it rare
         const int L = j.geti("winlen"), stride = L - j.geti("nov");
         const int room = int(std::min<long>(12, (100000 - L) / stride + 1));
